@@ -247,13 +247,13 @@ def parts(tier):
     return [
         Part('tree', make_harness(max_events=5, max_depth=3, allow_gen=False),
              bounds={'max_events': 5, 'max_depth': 3, 'roots': 1, 'generators': False}, encoded=ENC[:4], budget_s=900),
-        Part('tree-generators', make_harness(max_events=4, max_depth=3, allow_gen=True),
-             bounds={'max_events': 4, 'max_depth': 3, 'roots': 1, 'generators': True}, encoded=ENC, budget_s=900),
+        Part('tree-generators', make_harness(max_events=4, max_depth=2, allow_gen=True),
+             bounds={'max_events': 4, 'max_depth': 2, 'child_kinds': ['normal', 'cancelled', 'complete'], 'ends': ['ok', 'stop', 'raise'], 'roots': 1, 'generators': True}, encoded=ENC, budget_s=900),
         Part('call-in-generator', make_harness(max_events=5, max_depth=4, allow_gen=False, allow_call=True, allow_stop=False, allow_raise=False, allow_nested_complete=False, allow_cancel=False, max_ticks=80),
              bounds={'max_events': 5, 'max_depth': 4, 'fanout': 2, 'roots': 1, 'child_kinds': ['normal'], 'ends': ['ok'], 'generators': 'a handler may suspend in call(child) and fire children when the call returns'},
              encoded=ENC + [M.Manager.callEvent, M.Manager.waitEvent], budget_s=900),
-        Part('two-roots', make_harness(max_events=5, max_depth=2, roots=2, allow_gen=True, allow_stop=False),
-             bounds={'max_events': 5, 'max_depth': 2, 'roots': 2, 'generators': True}, encoded=ENC, budget_s=900),
+        Part('two-roots', make_harness(max_events=4, max_depth=2, roots=2, allow_gen=True, allow_stop=False, allow_raise=False),
+             bounds={'max_events': 4, 'max_depth': 2, 'roots': 2, 'generators': True, 'ends': ['ok']}, encoded=ENC, budget_s=900),
     ]
 
 
